@@ -144,7 +144,7 @@ Section Frame.
     Proof.
       induction ids as [|j r IH]; intros s skip now; cbn [rem_list].
       - apply R_refl.
-      - destruct (String.eqb j skip); [apply IH|].
+      - destruct (skipped skip j); [apply IH|].
         pose proof (rr_R s j now) as H.
         destruct (rr s j now) as [s1 [b|e|w|]]; cbn [fst] in *; try exact H.
         eapply R_trans; [exact H|apply IH].
